@@ -165,15 +165,23 @@ def length_rewrite(rep):
 
 
 def run(rep, tier):
-    rep.encoded("crates/s3s/src/http/aws_chunked_stream.rs", "parse_chunk_meta, read_meta_bytes, read_data (Kani); AwsChunkedStream::new (family)")
+    rep.encoded("crates/s3s/src/http/aws_chunked_stream.rs", "parse_chunk_meta, read_meta_bytes, read_data, check_signature's comparison (Kani)")
     kspec.run_spec(rep, "C08", tier, budget_s=450)
     length_rewrite(rep)
     fam = family()
-    sigprops.run_family(rep, "C08", fam, label="chunk fault family")
+    n_bad = sigprops.run_family(rep, "C08", fam, label="chunk fault family")
+    # the generator that composes the readers: decided on every path (rsx + z3); a deviation counts when the family shows one too
+    import C08gen
+    g = C08gen.check(rep, tier)
+    if g:
+        res = "holds"
+        for k_, what in sorted(g["findings"].items()):
+            res = rep.violation(k_, what, rep.save_cex("generator", {"finding": k_, "what": what}), confirmed=n_bad > 0)
+        rep.obligation(g["name"], "rsx+z3", res, g["time"], queries=g["queries"], states=g["paths"])
     # the backend sees the declared decoded length
     sigprops.run_family(rep, "C08", [("chunk:content-length-seen", "content_length handed to the backend is the declared decoded length",
                                       chunked_request([b"a" * 5, b"b" * 7]), {"accept": True, "identity": A.AK, "input_has": "content_length: 12,"})],
                         label="declared length")
     rep.assume("the per-chunk HMAC chain is real in the family and absent from the Kani harnesses (parse/framing only)")
-    rep.out("the composition of the readers inside the async generator is not decided symbolically (does not fit CBMC); chunk sizes beyond "
-            "the family; 64 KiB chunks; the -TRAILER payload variants (not implemented by the adapter)")
+    rep.out("the composition of the readers is decided at source level with the readers' contracts as assumptions (the compiled generator does not fit "
+            "CBMC); more than 3 (thorough: 4) chunks symbolically; 64 KiB chunks; the -TRAILER payload variants (not implemented by the adapter)")
